@@ -126,6 +126,7 @@ def run(tier, seed):
     chk.count('work_units', len(units))
     for part in pmap(ex.run_unit, units):
         chk.merge(part)
+    chk.expect('executions', len(units))
     chk.assumptions = ["times on the stated grids; for tol>0 only resolved (grid-aligned) times",
                        "real-noise identities to 1e-12 relative, labelled identities to 1e-12 on coefficient rows"]
     return chk
